@@ -796,7 +796,8 @@ impl Monitor for C09 {
         } else if k % 30 == 2 {
             self.straddle(k, rng, col);
         } else if k % 3 == 0 {
-            let spec = elfgen::gen_spec(rng, false);
+            let rich = rng.below(2) == 0;
+            let spec = elfgen::gen_spec(rng, rich);
             let bytes = elfgen::write_elf(&spec);
             self.elf_case(k, rng, col, &bytes, "generated ELF");
         } else {
